@@ -25,7 +25,7 @@ META = {
 }
 
 QUICK = dict(export='C12_export_quick.cfg', full_dicts=1, sample_dicts=10, chains=6, chain_len=3, law_chunks=6)
-THOROUGH = dict(export='C12_export_thorough.cfg', full_dicts=2, sample_dicts=20, chains=16, chain_len=4, law_chunks=12)
+THOROUGH = dict(export='C12_export_thorough.cfg', full_dicts=1, sample_dicts=16, chains=10, chain_len=4, law_chunks=12)
 
 
 def _sig(f):
